@@ -36,13 +36,11 @@ def cases(tier, seed):
                     yield {"name": name, "n": n, "seed": subseed("C19", seed, name, n, r, kind) % (2**31), "kind": kind}
 
 
-def check_point(f, g, x, out: Outcome, name, buf=None):
+def check_point(f, g, x, out: Outcome, name, given=None):
     """The oracle on one point. Returns True when the point was judged.
-    buf: a work array the caller reuses for every point (overwritten in place), as simulation codes do."""
-    if buf is not None and buf.shape == x.shape:
-        buf[:] = x
-        fx = f(buf)
-        gx = np.array(g(buf), copy=True)
+    given: (value, gradient) already obtained by the caller for this point (through a reused work array)."""
+    if given is not None:
+        fx, gx = given
     else:
         fx = f(x.copy())
         gx = g(x.copy())
@@ -73,7 +71,8 @@ def run(spec):
     g = getattr(lbfgsb, name + "_grad")
     rng = np.random.default_rng(spec["seed"])
     generic = 0
-    buf = np.empty(n) if spec["seed"] % 2 == 0 else None  # half of the cases pass one reused work array
+    reuse = spec["seed"] % 2 == 0  # half of the cases pass ONE work array, overwritten in place for each new point
+    pts = []
     for _ in range(NPTS):
         if spec["kind"] == "uniform":
             x = rng.uniform(-5, 5, n)
@@ -95,9 +94,21 @@ def run(spec):
         if name == "griewank" and np.any(np.abs(np.cos(x / np.sqrt(np.arange(1, n + 1)))) < 1e-6):
             out.count("points_excluded_singular")
             continue
-        check_point(f, g, x, out, name, buf=buf)
+        pts.append(x)
+    answers = None
+    if reuse and pts:
+        # first pass: nothing but the user's own calls, all through the same array object
+        buf = np.empty(n)
+        answers = []
+        for x in pts:
+            buf[:] = x
+            fx = f(buf)
+            gx = np.array(g(buf), copy=True)
+            answers.append((fx, gx))
+    for k, x in enumerate(pts):
+        check_point(f, g, x, out, name, given=None if answers is None else answers[k])
         out.count("points_checked")
-        if buf is not None:
+        if reuse:
             out.count("points_passed_in_a_reused_buffer")
         if not np.any(x == np.round(x)):
             generic += 1
@@ -106,7 +117,7 @@ def run(spec):
             break
     out.nontrivial = generic > 0
     out.key = f"{name}/{n}/{spec['seed']}/{spec['kind']}"
-    out.sample = dict(spec=spec, last_point=x)
+    out.sample = dict(spec=spec, last_point=pts[-1] if pts else None)
     return out
 
 
